@@ -84,7 +84,63 @@ def recovery_rules(ctx, rep, prefix: str, classes: list[str]) -> None:
         rep.ob(f"{prefix}.4", f"recursion:{ci.name}:three-way-case-analysis", ok, inner.loc(chain[0]) if chain else inner.loc(), detail, sample=True)
 
 
+def slab_arithmetic(ctx, rep, rule: str, classes: list[str]) -> None:
+    """Integer expressions of the split, interpreted on complete small boxes: the center slab starts at the smallest
+    multiple of the slab size >= block start and ends at the largest multiple <= block end; narrow() offsets / lengths are
+    relative to the block start and tile [start, end) as left | center | right."""
+    import itertools
+
+    from ..guards import Interp, Unsupported
+
+    repo = ctx.repo
+    for cq in classes:
+        ci = repo.cls(cq)
+        inner = next(iter(ci.methods["_split_tensor_block_recovery"].inner.values()))
+        defs = {n.targets[0].id: n.value for n in A.walk_no_nested(inner.node) if isinstance(n, ast.Assign) and isinstance(n.targets[0], ast.Name)}
+        need = ["center_split_start_idx", "center_split_end_idx", "center_split_start_idx_in_block", "length_of_center_split", "left_split_tensor_size", "center_split_end_idx_in_block", "right_split_tensor_size"]
+        missing = [n for n in need if n not in defs]
+        if missing:
+            raise AnalysisError(f"{rule}: expected locals {missing} not found in {ci.name}'s recovery helper")
+        bad = []
+        n = 0
+        try:
+            for rs, s, ln in itertools.product(range(1, 7), range(0, 14), range(0, 20)):
+                e = s + ln
+                env = {"remaining_size": rs, "block_start_idx": s, "block_end_idx": e}
+                it = Interp(env)
+                for nm in need:
+                    it.env[nm] = it.ev(defs[nm])
+                v = it.env
+                cs, ce = -(-s // rs) * rs, (e // rs) * rs
+                n += 1
+                want = {"center_split_start_idx": cs, "center_split_end_idx": ce, "center_split_start_idx_in_block": cs - s, "length_of_center_split": ce - cs, "left_split_tensor_size": cs - s, "center_split_end_idx_in_block": ce - s, "right_split_tensor_size": e - ce}
+                for k, w in want.items():
+                    if v[k] != w:
+                        bad.append((rs, s, e, k, v[k], w))
+        except Unsupported as u:
+            raise AnalysisError(f"{rule}: split index expressions outside the integer sub-language: {u}") from u
+        rep.ob(rule, f"slab-indices:{ci.name}", not bad, inner.loc(), f"{n} (slab size, start, end) points: center = [ceil(start/size)*size, floor(end/size)*size), offsets relative to the block start, left/right sizes complement it" + (f"; at size={bad[0][0]}, start={bad[0][1]}, end={bad[0][2]}: {bad[0][3]} = {bad[0][4]}, expected {bad[0][5]}" if bad else ""), sample=True)
+        # remaining_size is the product of the trailing dims; the center view is [-1] + trailing dims
+        rs_def = defs.get("remaining_size")
+        ok = rs_def is not None and " ".join(ast.unparse(rs_def).split()) == "prod(original_shape[dimension + 1:])"
+        ns = defs.get("new_shape")
+        ok2 = ns is not None and " ".join(ast.unparse(ns).split()) == "[-1] + list(original_shape[dimension + 1:])"
+        rep.ob(rule, f"slab-shape:{ci.name}", ok and ok2, inner.loc(), "slab size = prod(shape[d+1:]) and the center piece is viewed as [-1, *shape[d+1:]]")
+        # narrow() calls use those offsets / lengths
+        nar = [c for c in A.calls(inner.node, nested=True) if isinstance(c.func, ast.Attribute) and c.func.attr == "narrow"]
+        sigs = sorted((" ".join(ast.unparse(c.args[1] if len(c.args) > 1 else A.keyword(c, "start")).split()), " ".join(ast.unparse(c.args[2] if len(c.args) > 2 else A.keyword(c, "length")).split())) for c in nar)
+        want_sigs = sorted([("center_split_start_idx_in_block", "length_of_center_split"), ("left_split_start_idx_in_block", "left_split_tensor_size"), ("center_split_end_idx_in_block", "right_split_tensor_size")])
+        left0 = defs.get("left_split_start_idx_in_block")
+        rep.ob(rule, f"slab-narrow:{ci.name}", sigs == want_sigs and isinstance(left0, ast.Constant) and left0.value == 0, inner.loc(), f"narrow(0, offset, length) pairs {sigs}: center, left (from 0) and right pieces use their own offset and length")
+        # recursive calls get the matching flat index ranges
+        rec = [c for c in A.calls(inner.node) if isinstance(c.func, ast.Name) and c.func.id == inner.name and "narrow" in ast.unparse(c)]
+        ranges = sorted((" ".join(ast.unparse(A.keyword(c, "block_start_idx")).split()), " ".join(ast.unparse(A.keyword(c, "block_end_idx")).split())) for c in rec)
+        rep.ob(rule, f"slab-recursion-ranges:{ci.name}", ranges == sorted([("block_start_idx", "center_split_start_idx"), ("center_split_end_idx", "block_end_idx")]), inner.loc(), f"left recursion covers [start, center_start), right recursion covers [center_end, end): {ranges}")
+
+
 def run(ctx, rep) -> None:
+    rep.rule("C15.5", "integer arithmetic of one split: center = [ceil(start/size)*size, floor(end/size)*size), offsets/lengths of the three pieces tile the block (complete small boxes)")
+    rep.attempt("slab_arithmetic", slab_arithmetic, ctx, rep, "C15.5", [FSDP, HSDP])
     rep.rule("C15.1", "every recovered block is a view of the given shard (view-only derivation); pieces concatenated in range order")
     rep.rule("C15.2", "guards: non-flat shard raises first; empty range yields []; last dimension returns the block; outer returns only the helper's result")
     rep.rule("C15.3", "the FSDP and HSDP copies agree")
